@@ -3,7 +3,7 @@
 //@props C07,C08,C09,C10
 // BOUNDED executable stand-in for the scheduling requests and the four action kinds (labelled bounded, never counted as
 // proved). The REAL text of GlobalScheduler::{new, time, schedule_from, schedule_event_from, schedule_keyed_event_from,
-// schedule_periodic_event_from, schedule_keyed_periodic_event_from}, ActionKey, AutoActionKey, SchedulingError, Action,
+// schedule_periodic_event_from, schedule_keyed_periodic_event_from}, the public handle `Scheduler` (all its methods), ActionKey, AutoActionKey, SchedulingError, Action,
 // ActionInner, PeriodicAction, KeyedOnceAction, KeyedPeriodicAction, process_event, send_keyed_event (simulation/scheduler.rs),
 // the InputFn trait with its plain-function impl (ports/input/model_fn.rs) and util/priority_queue.rs is cut from /repo on
 // every run with NO rewrite rule and compiled by rustc against the executable stubs below. The stubs that carry behaviour:
@@ -106,6 +106,9 @@ impl<M: Model> Clone for Sender<M> {
 impl<M: Model> Sender<M> {
     pub fn new(m: M) -> Self {
         Sender(Arc::new(Shared(UnsafeCell::new(m))))
+    }
+    pub fn channel_id(&self) -> usize {
+        Arc::as_ptr(&self.0) as usize
     }
     pub fn with<R>(&self, f: impl FnOnce(&mut M) -> R) -> R {
         f(unsafe { &mut *self.0 .0.get() })
@@ -229,6 +232,13 @@ use pq::PriorityQueue;
 //@item src=nexosim/src/simulation/scheduler.rs kind=impl name=`^impl Action ` id=impl-Action
 //@end
 //@item src=nexosim/src/simulation/scheduler.rs kind=type name=SchedulerQueue
+//@end
+//@item src=nexosim/src/simulation/scheduler.rs kind=const name=GLOBAL_SCHEDULER_ORIGIN_ID
+//@end
+#[derive(Clone)]
+//@item src=nexosim/src/simulation/scheduler.rs kind=struct name=Scheduler
+//@end
+//@item src=nexosim/src/simulation/scheduler.rs kind=impl name=`^impl Scheduler ` id=impl-Scheduler
 //@end
 #[derive(Clone)]
 //@item src=nexosim/src/simulation/scheduler.rs kind=struct name=GlobalScheduler
